@@ -4,7 +4,7 @@ CONSTANTS
   MaxTok = 6
   MaxIdx = 2
   AllowAgg = FALSE
-  DevOn = {"EmptyBraceNoFocus", "BraceNoReset", "UnionCover", "StrPatchOOB", "AutoBackZero", "ReplaceEndOnly"}
+  DevOn = {"EmptyBraceNoFocus", "BraceNoReset", "UnionCover", "AutoBackZero", "ReplaceEndOnly"}
   Salt = 5
   EmitCases = TRUE
   Prune = TRUE
